@@ -91,26 +91,41 @@ _PURE_CALLS = {"len", "int", "str", "bytes", "bytearray", "range", "isinstance",
                "iterfind", "findall", "copy", "isidentifier", "replace", "odxstr_to_bool"}
 
 
-def _effects(node: ast.AST, exempt: Set[int] = frozenset()) -> bool:
-    """May evaluating ``node`` change the heap?  (calls outside a short list of pure ones,
-    stores to attributes / items)"""
+def _root(e: ast.AST) -> Optional[str]:
+    while isinstance(e, (ast.Attribute, ast.Subscript, ast.Call)):
+        e = e.func if isinstance(e, ast.Call) else e.value
+    return e.id if isinstance(e, ast.Name) else None
+
+
+def _effects(node: ast.AST, roots: Set[str], attrs: Set[str]) -> bool:
+    """May evaluating ``node`` change what a definition with the given root objects / attribute
+    names reads?  A store to an attribute or item of a root (or to an attribute of that name of
+    anything), a call -- outside a short list of pure ones -- that is made on a root or is
+    handed a root object, a yield."""
     for x in ast.walk(node):
-        if id(x) in exempt:
-            continue
         if isinstance(x, ast.Call):
             nm = x.func.attr if isinstance(x.func, ast.Attribute) else (
                 x.func.id if isinstance(x.func, ast.Name) else "")
-            if nm not in _PURE_CALLS:
+            if nm in _PURE_CALLS:
+                continue
+            if isinstance(x.func, ast.Attribute) and _root(x.func.value) in roots:
                 return True
+            for a_ in list(x.args) + [k.value for k in x.keywords]:
+                for y in ([a_.value] if isinstance(a_, ast.Starred) else [a_]):
+                    ys = y.elts if isinstance(y, (ast.Tuple, ast.List)) else [y]
+                    if any(isinstance(z, ast.Name) and z.id in roots for z in ys):
+                        return True
         if isinstance(x, (ast.Attribute, ast.Subscript)) and isinstance(
                 x.ctx, (ast.Store, ast.Del)):
-            return True
+            if _root(x) in roots or (isinstance(x, ast.Attribute) and x.attr in attrs):
+                return True
         if isinstance(x, (ast.Yield, ast.YieldFrom, ast.Await)):
             return True
     return False
 
 
-def _moved_across_effects(stmts: List[ast.stmt], names: Set[str]) -> bool:
+def _moved_across_effects(stmts: List[ast.stmt], names: Set[str], roots: Set[str],
+                          attrs: Set[str]) -> bool:
     dirty = False
     for s2 in stmts:
         loads = [x for x in _walk_scope(s2) if isinstance(x, ast.Name) and x.id in names and
@@ -123,38 +138,44 @@ def _moved_across_effects(stmts: List[ast.stmt], names: Set[str]) -> bool:
                 header += [it.context_expr for it in getattr(s2, "items", [])]
                 in_header = {id(x) for h in header for x in ast.walk(h)}
                 body_loads = [x for x in loads if id(x) not in in_header]
+                parts: List[ast.stmt] = []
+                for a in ("body", "orelse", "finalbody"):
+                    parts += getattr(s2, a, []) or []
+                for h in getattr(s2, "handlers", []) or []:
+                    parts += h.body
                 if body_loads:
-                    parts = []
-                    for a in ("body", "orelse", "finalbody"):
-                        parts += getattr(s2, a, []) or []
-                    for h in getattr(s2, "handlers", []) or []:
-                        parts += h.body
-                    if _moved_across_effects(parts, names) or (
-                            isinstance(s2, (ast.While, ast.For)) and any(
-                                _effects(p_) for p_ in parts)):
+                    if any(_effects(h, roots, attrs) for h in header):
                         return True
-                    if any(_effects(h) for h in header):
-                        return True
-                    # effects of the body before a later load were handled recursively
-                    if any(_effects(p_) for p_ in parts):
-                        dirty = True
-                    continue
-                # loads in the header only: calls of the header that take the temporary as an
-                # argument read it before they run
-                for h in header:
-                    for c in ast.walk(h):
-                        if isinstance(c, ast.Call) and _effects(c) and not any(
-                                id(x) in {id(y) for y in ast.walk(c)} for x in loads):
+                    if isinstance(s2, ast.If):
+                        # the two branches are alternatives, not a sequence
+                        if _moved_across_effects(s2.body, names, roots, attrs) or \
+                                _moved_across_effects(s2.orelse, names, roots, attrs):
                             return True
-            else:
-                for c in ast.walk(s2):
-                    if isinstance(c, ast.Call) and _effects(
-                            ast.Expr(value=ast.Call(func=c.func, args=[], keywords=[]))) and \
-                            not any(id(x) in {id(y) for y in ast.walk(c)} for x in loads):
+                    elif _moved_across_effects(parts, names, roots, attrs):
                         return True
-        if _effects(s2):
+                    if isinstance(s2, (ast.While, ast.For)) and any(
+                            _effects(p_, roots, attrs) for p_ in parts):
+                        return True  # a later iteration reads after this one's effects
+                elif isinstance(s2, ast.While) and any(_effects(p_, roots, attrs) for p_ in parts):
+                    return True  # the loop test is evaluated again after the body
+        if _effects_reaching_next(s2, roots, attrs):
             dirty = True
     return False
+
+
+def _effects_reaching_next(st: ast.stmt, roots: Set[str], attrs: Set[str]) -> bool:
+    """Effects of ``st`` that the statement after it can observe: a branch that ends in
+    return / raise / continue / break does not reach it."""
+    if isinstance(st, ast.If):
+        if _effects(st.test, roots, attrs):
+            return True
+        for br in (st.body, st.orelse):
+            if br and isinstance(br[-1], (ast.Return, ast.Raise, ast.Continue, ast.Break)):
+                continue
+            if any(_effects_reaching_next(s_, roots, attrs) for s_ in br):
+                return True
+        return False
+    return _effects(st, roots, attrs)
 
 
 # ------------------------------------------------------------------ new temporaries
@@ -232,7 +253,10 @@ def inline_temporaries(fn: ast.AST, new_names: Set[str]) -> int:
                 # if s.cursor <= c` compares two different values
                 if any(isinstance(x, (ast.Attribute, ast.Subscript, ast.Call))
                        for v in env.values() for x in ast.walk(v)) and \
-                        _moved_across_effects(block[i + 1:], set(env)):
+                        _moved_across_effects(
+                            block[i + 1:], set(env), rhs_names,
+                            {x.attr for v in env.values() for x in ast.walk(v)
+                             if isinstance(x, ast.Attribute)}):
                     continue
                 sub = _SubstNames(env)
                 for j in range(i + 1, len(block)):
